@@ -382,14 +382,17 @@ def run(pid, P, a, seed, t0):
 
     # ---- degraded functions and thorough tier: bounded monitoring of the run-time contracts
     monitor = []
-    mon_funcs = list(dict.fromkeys([q for q, _ in degraded] + (P["functions"] if a.tier == "thorough" else P.get("monitor_quick", []))))
+    # a function that left the verifier's reach is no longer covered by its callers' proofs either (they were checked against
+    # its contract): when anything is degraded, every function of the property is monitored deeply, callers included
+    mon_funcs = list(dict.fromkeys([q for q, _ in degraded] + (P["functions"] if (a.tier == "thorough" or degraded) else [])
+                                   + P.get("monitor_quick", [])))
     deg_set = {q for q, _ in degraded}
     for q in mon_funcs:
         c = db.get(q)
         if c is None or c.opts.get("no_rt"):
             continue
         hid = hashlib.sha1(q.encode()).hexdigest()[:8]
-        deep = a.tier == "thorough" or q in deg_set
+        deep = a.tier == "thorough" or bool(deg_set)
         found = search_input(q, "mon" + hid, seeds=(0, 1, 2, 3) if deep else (0,), n=4000 if deep else 600)
         monitor.append(q)
         if found:
